@@ -296,8 +296,10 @@ impl TestRunner {
                     _ => unreachable!(),
                 };
                 let message = assertion.failure_message.clone().unwrap_or_else(|| {
-                    let expr = format!("{}", &assertion.expr.data).trim().to_string();
-                    format!("assertion failed: {}", expr)
+                    format!(
+                        "assertion failed: {}",
+                        assertion.expr.data.to_plain_string()
+                    )
                 });
                 let diag = Diagnostic::error()
                     .with_message(message)
@@ -419,7 +421,7 @@ fn format_trace(trace: &Trace, ctx: &CodegenContext) -> String {
             Some(SymbolData::String(str)) => str.clone(),
             _ => "<unknown>".into(),
         };
-        eval.push(format!("{} = {}", &expr.data, value));
+        eval.push(format!("{} = {}", expr.data.to_plain_string(), value));
     }
     eval.join(", ")
 }
